@@ -6,8 +6,8 @@ from harness.core import cbool, clist, copt, cq, cz, czlist
 ID = "C11"
 MODEL_TARGETS = ["C11/Cases.vo"]
 PROOF_TARGETS = ["C11/Proofs.vo", "C11/Gen.vo", "C11/Bridge.vo", "C11/OptsModel.vo", "C11/GenOpts.vo",
-                 "C11/OptsBridge.vo", "C11/Refuted.vo"]
-OBLIGATION_FILES = ["C11/Bridge.v", "C11/OptsBridge.v", "C11/Refuted.v"]
+                 "C11/OptsBridge.vo", "C11/GenAdapter.vo", "C11/AdapterBridge.vo", "C11/Refuted.vo"]
+OBLIGATION_FILES = ["C11/Bridge.v", "C11/OptsBridge.v", "C11/AdapterBridge.v", "C11/Refuted.v"]
 PROPS_FILE = "C11/Props.v"
 SHARD = 150
 PER_CASE_TIMEOUT = 120
@@ -28,7 +28,12 @@ RULE = ("NaiveForecaster: all strategies x sp 1..4 x window_length None/1..n(+1)
         "series (quick: every other multiplicative-error model + 6 random ETS + 6 random ES "
         "combinations; thorough: all of them on 4 series): forecasts AND the components of the "
         "wrapped model that was actually fitted against a direct statsmodels model with the "
-        "requested options. non-trivial = forecast "
+        "requested options. Adapters whose CUTOFF differs from the end of the wrapped model's own "
+        "data: fit(y1); update(y2, update_params=False) with 1..6 further observations; predict(fh) "
+        "with in-sample, mixed and out-of-sample horizons relative to the new cutoff (ExponentialSmoothing "
+        "ses/trend/HW and with options, AutoETS fixed model ann/HW and with options), against the "
+        "statsmodels model fitted on y1 alone at the absolute positions cutoff+fh counted from the "
+        "start of y1. non-trivial = forecast "
         "returned (or a documented rejection); distinct = distinct canonical JSON case")
 TRUSTED = [
     "translator/naive_c11.py: the symbolic evaluator (static decision of `self.strategy == ...`, "
@@ -72,8 +77,16 @@ MODELLED = [
     "polynomial fit: model solves and CHECKS the normal equations in Q; theorem = whatever it "
     "returns minimises the squared error (all degrees); that elimination always succeeds for "
     "#coefficients <= n is only observed, not proved (poly_is_lsq_partial)",
+    "REGENERATED by translator/adapters_c11.py into C11/GenAdapter.v (fail closed, canonical tree of "
+    "_StatsModelsAdapter._predict): start / end handed to the wrapped results = first / last entry of "
+    "fh.to_absolute_int(self._y.index[0], self.cutoff), labels = fh.to_absolute(self.cutoff); "
+    "AdapterBridge.v proves them equal to the model's adapter_predict_at for all arguments (positions "
+    "counted from the start of the training series, placed by the cutoff). Modelled: the wrapped "
+    "results label position p by index[0] + p",
     "statsmodels forecasts are oracle values from a direct statsmodels call; only the adapter's "
-    "delegation and step selection is modelled. ThetaForecaster's drift/re-seasonalisation is "
+    "delegation and step selection is modelled. ThetaForecaster is not run through "
+    "update(update_params=False) (its drift term is sktime's own and mixes fit-time and update-time "
+    "state; the text does not say what it should be). ThetaForecaster's drift/re-seasonalisation is "
     "restated in the Python oracle (SES + trend/2*(h+(1-(1-a)^n)/a), times the seasonal factor of "
     "the step's phase), not proved",
     "AutoETS(auto=True) model search, prediction intervals, exogenous X, datetime/period indices: "
@@ -167,7 +180,10 @@ ES_OPTS = [dict(trend=t, damped_trend=d, seasonal=s_, sp=4 if s_ else None)
            if not (t is None and d)]
 
 
-def _adapter_case(rng, model=None):
+UPD_ADAPTERS = ["es", "es_trend", "es_hw", "ets", "ets_hw"]     # not theta: see MODELLED
+
+
+def _adapter_case(rng, model=None, upd=False):
     model = model or rng.choice(ADAPTERS)
     n = rng.randint(12, 20)
     base = rng.randint(20, 60)
@@ -184,6 +200,11 @@ def _adapter_case(rng, model=None):
         c["opts"] = dict(rng.choice(ETS_OPTS))
     elif model == "es_opt":
         c["opts"] = dict(rng.choice(ES_OPTS))
+    if upd:
+        # further observations of the same process, handed to update(update_params=False): the cutoff
+        # moves on, the wrapped model stays the one fitted on y
+        k = rng.choice([1, 1, 2, 3, 4, 5, 6])
+        c["upd"] = [4 * (base + slope * i + seas[i % 4]) + rng.randint(-6, 6) for i in range(n, n + k)]
     return c
 
 
@@ -279,6 +300,12 @@ def gen_cases(rng, tier):
             c = _adapter_case(rng, "es_opt")
             c["opts"] = dict(o)
             cases.append(c)
+    # cutoff != end of the wrapped model's data: fit(y1); update(y2, update_params=False); predict
+    for i in range(30 if quick else 200):
+        cases.append(_adapter_case(rng, UPD_ADAPTERS[i % len(UPD_ADAPTERS)], upd=True))
+    for i in range(6 if quick else 40):
+        m = ("ets_opt", "es_opt")[i % 2]
+        cases.append(_adapter_case(rng, m, upd=True))
     if not quick:
         cases += exhaustive_cases()
     return cases
@@ -334,7 +361,11 @@ def _direct_statsmodels(case, y0):
     from statsmodels.tsa.exponential_smoothing.ets import ETSModel
     n = len(y0)
     fh = case["fh"]
-    start, end = n - 1 + fh[0], n - 1 + fh[-1]
+    # positions counted from the start of y0 (the data the model is fitted on); the cutoff is the
+    # last observation SEEN, i.e. len(upd) positions after the end of y0 when the forecaster was
+    # updated without refitting
+    cut = n - 1 + len(case.get("upd") or [])
+    start, end = cut + fh[0], cut + fh[-1]
     m = case["model"]
     y0 = pd.Series(np.asarray(y0, dtype=float))
     if m == "ets_opt":
@@ -438,6 +469,15 @@ def run_impl(case):
                 f = ThetaForecaster(sp=4 if m == "theta_sp" else 1)
             vals0 = [v / case["den"] for v in case["y"]]
             f.fit(y)
+            if case.get("upd"):
+                stage = "update"
+                import numpy as np
+                import pandas as pd
+                t1 = case["t0"] + len(case["y"])
+                u = np.array([v / case["den"] for v in case["upd"]], dtype=float)
+                ix = (pd.Index(np.arange(t1, t1 + len(u))) if case.get("idx") == "int"
+                      else pd.RangeIndex(t1, t1 + len(u)))
+                f.update(pd.Series(u, index=ix), update_params=False)
             stage = "predict"
             out = _canon(f.predict(fh=list(case["fh"])))
             out["dense"] = [float_ratio(v) for v in _direct_statsmodels(case, vals0)]
@@ -577,7 +617,7 @@ def textbook_poly(case):
 
 
 def _labels(case, out):
-    n, t0 = len(case["y"]), case["t0"]
+    n, t0 = len(case["y"]) + len(case.get("upd") or []), case["t0"]
     want = [t0 + n - 1 + r for r in case["fh"]]
     if out["index"] != want:
         return "labels: index %s expected cutoff+fh %s" % (out["index"], want)
@@ -684,6 +724,11 @@ def oracle(case, out):
         contiguous = fh == list(range(fh[0], fh[-1] + 1))
         if case["model"] == "theta_sp" and not contiguous:
             return "theta-gapped-horizon-seasonal-factors: %s" % what
+        if case.get("upd"):
+            n0, k_ = len(case["y"]), len(case["upd"])
+            return ("adapter-after-update-not-the-wrapped-models-forecast-at-cutoff+fh: fitted on %d "
+                    "observations, cutoff moved on by %d without refit: %s for position %d counted from "
+                    "the start of the training series" % (n0, k_, what, n0 + k_ - 1 + r))
         return "adapter-differs-from-direct-statsmodels: %s" % what
     return "unknown-kind"
 
@@ -703,6 +748,8 @@ def shrink(case):
             d["fh"] = fh[:i] + fh[i + 1:]
             yield d
     if c["kind"] == "adapter":
+        if c.get("upd") and len(c["upd"]) > 1:
+            yield dict(c, upd=c["upd"][:-1])
         return
     y = c["y"]
     if len(y) > 1:
@@ -769,6 +816,10 @@ def coq_case(case, out):
     if k == "adapter":
         if "err" in out:
             return None
+        if case.get("upd"):
+            return "CAdapterUpd %s %s %s %s %s" % (cz(len(case["y"])), cz(len(case["upd"])),
+                                                  clist([_coq(v) for v in out["dense"]]),
+                                                  czlist(case["fh"]), _cout(out))
         return "CAdapter %s %s %s %s" % (cz(len(case["y"])), clist([_coq(v) for v in out["dense"]]),
                                         czlist(case["fh"]), _cout(out))
     return None
@@ -812,7 +863,7 @@ def distribution(cases, results):
         elif c["kind"] == "poly":
             d["poly:degree%d:%s" % (c["degree"], "intercept" if c["intercept"] else "origin")] += 1
         else:
-            d["adapter:%s" % c["model"]] += 1
+            d["adapter:%s%s" % (c["model"], ":cutoff-moved-without-refit" if c.get("upd") else "")] += 1
     return dict(d)
 
 
